@@ -157,7 +157,7 @@ func (s *c04state) epoch(depth int, si selImage, path []string) {
 	}
 	// (b)+(c): run the recovering Open and a further session on CrashFS
 	rec0 := core.Recoveries()
-	p := histParams{NOps: 8 + c.Rng.Intn(32), Reopen: true, Writers: true, LiveCheck: true, SyncPct: 6, CompactPct: 12, WindowBudget: 4}
+	p := histParams{NOps: 10 + c.Rng.Intn(40), Reopen: true, Writers: true, LiveCheck: true, SyncPct: 4, CompactPct: 18, WindowBudget: 4, Scenarios: depth == 2}
 	hb, err := genHistory(c, c.Rng, si.im, si.adm, s.cfg, s.ks, p, &s.valIdx)
 	if err != nil {
 		data := map[string]interface{}{}
